@@ -28,7 +28,8 @@ MC_AllNames == {<<"x2">>, <<"x10">>, <<"x1y">>} \cup {<<"w", i>> : i \in 0..10} 
 MC_En == {"Sum", "LinComb", "Dot", "Index", "MGet", "Diagonal", "Transpose", "CmpLit", "Cmp", "Problem",
           "SBin", "VBinLit", "Frobenius"}
 MC_ScalarLits == {LitS("int", Q(2, 1))}
-MC_ArrayLits == {Lit("arr", <<Q(1,1), Q(-2,1), Q(3,1)>>, <<3>>), Lit("arr", <<Q(2,1), Q(5,1)>>, <<2>>),
+MC_ArrayLits == {Lit("arr", <<Q(1,1), Q(-2,1), Q(3,1)>>, <<3>>), Lit("arr", <<Q(2,1), Q(5,1)>>, <<2>>), Lit("arr", <<Q(0,1), Q(5,1)>>, <<2>>),      \* a zero coefficient still mentions its variable
+                 
                  Lit("arr", <<Q(1,1), Q(1,1), Q(1,1), Q(1,1), Q(1,1), Q(1,1), Q(1,1), Q(1,1), Q(1,1), Q(1,1), Q(2,1)>>, <<11>>)}
 MC_Slices == {}
 MC_Indices == {10}
@@ -38,9 +39,10 @@ MC_VOps == {"*"}
 MC_Senses == {"<=", "=="}
 MC_ObjCands == {}
 MC_Stages == <<>>
-\* thorough tier: two expression-building calls, a comparison, the problem
-MC_ExprCalls == {"Sum", "LinComb", "Dot", "Index", "MGet", "Diagonal", "Transpose", "SBin", "VBinLit", "Frobenius"}
-MC_StagesDeep == << MC_ExprCalls, MC_ExprCalls, {"CmpLit", "Cmp"}, {"Problem"} >>
+\* thorough tier: a view, a reduction / expression over it, a comparison, the problem
+MC_ViewCalls == {"Index", "MGet", "Diagonal", "Transpose"}
+MC_ExprCalls == {"Sum", "LinComb", "Dot", "SBin", "VBinLit", "Frobenius"}
+MC_StagesDeep == << MC_ViewCalls, MC_ExprCalls, {"CmpLit", "Cmp"}, {"Problem"} >>
 MC_FinalEn == {"Problem"}
 MC_SingValues == {}
 MC_Want == {}
